@@ -277,6 +277,7 @@ func runE1Case(r *verifkit.Run, pf e1Profile, id string, rng *rand.Rand) map[str
 	cs.counter["forged_list_copies_delivered"] += int64(g.forgedCopies)
 	cs.counter["c11_views_judged"] += int64(mo.c11.viewsJudged)
 	cs.counter["c11_jump_ahead_views_judged"] += int64(mo.c11.jumpAheadsJudged)
+	cs.counter["c11_same_version_content_comparisons"] += int64(mo.c11.sameVersionCompared)
 	cs.counter["c11_jump_ahead_views_judged_for_justifying_votes"] += int64(mo.c11.jumpAheadsLive)
 	cs.counter["c11_updates_judged"] += int64(mo.c11.updatesJudged)
 	cs.counter["c11_quiescence_comparisons"] += int64(mo.c11.quiescences)
